@@ -1115,3 +1115,323 @@ Proof.
 Qed.
 
 End Stmt.
+
+(* ------------------------------------------------------------------------------------ *)
+(* G. blocks                                                                              *)
+
+Lemma in_pb_stmt sid : in_plan_stmt (pb_of c) sid = in_plan_stmt (d_pa c) sid && negb (in_acc c sid).
+Proof.
+  unfold pb_of, in_plan_stmt, in_acc. destruct (d_pa c) as [[ss fs]|]; [|reflexivity].
+  destruct sid as [i|]; [|reflexivity].
+  fold (memz i (filter (fun j => negb (memz j (d_acc c))) ss)). fold (memz i ss).
+  destruct (memz i ss) eqn:E1; cbn [andb].
+  - destruct (memz i (d_acc c)) eqn:E2; cbn [negb].
+    + apply memz_nIn. intros H. apply filter_In in H. destruct H as [_ H]. rewrite E2 in H. discriminate.
+    + apply memz_In. apply filter_In. split; [apply memz_In; exact E1|]. rewrite E2. reflexivity.
+  - apply memz_nIn. intros H. apply filter_In in H. destruct H as [H _]. apply memz_In in H. congruence.
+Qed.
+
+Lemma in_pb_fn fid : in_plan_fn (pb_of c) fid = in_plan_fn (d_pa c) fid.
+Proof. unfold pb_of, in_plan_fn. destruct (d_pa c) as [[ss fs]|]; reflexivity. Qed.
+
+Lemma tr_stmts_cons fc Ds t r La :
+  tr_stmts c fc Ds (t :: r) La =
+  match tr_stmts c fc (decl_after c Ds t) r La with
+  | None => None
+  | Some Lm =>
+      if in_plan_stmt (d_pa c) (stmt_sid t) then
+        if in_acc c (stmt_sid t) then
+          if pruned_store_ok Ds Lm t then Some Lm else None
+        else if is_fun t then tr_stmt c fc Ds t Lm
+        else Some Lm
+      else tr_stmt c fc Ds t Lm
+  end.
+Proof. reflexivity. Qed.
+
+Definition sfun_ok (t : stmt) : Prop :=
+  match t with
+  | SFun _ n ps body fid ls ll =>
+      in_plan_fn (d_pa c) fid = true \/
+      fd_ok c {| f_id := fid; f_name := n; f_params := ps; f_body := body; f_lstart := ls; f_llen := ll |}
+  | _ => True
+  end.
+
+Lemma tr_stmt_sfun fc Ds t La Lb : tr_stmt c fc Ds t La = Some Lb -> sfun_ok t.
+Proof.
+  destruct t; try (intros; exact I). cbn [tr_stmt sfun_ok]. fold (tr_stmts c).
+  destruct (in_plan_fn (d_pa c) fid); [left; reflexivity|].
+  destruct fid as [f|]; [|discriminate]. destruct (rt_get (d_rt c) f) as [R|] eqn:ER; [|discriminate].
+  destruct (nodupb (param_ids lstart ps 0 [])) eqn:En; [|discriminate].
+  destruct (tr_stmts c _ _ body []) as [Lx|] eqn:Et; [|discriminate].
+  intros _. right. exists f, R, Lx. cbn [f_id f_lstart f_params f_body]. auto.
+Qed.
+
+Lemma tr_stmts_funs fc ts : forall Ds La Lb,
+  tr_stmts c fc Ds ts La = Some Lb -> forall x, In x ts -> is_fun x = true -> sfun_ok x.
+Proof.
+  induction ts as [|t r IH]; intros Ds La Lb H x Hx Hf; [destruct Hx|].
+  rewrite tr_stmts_cons in H.
+  destruct (tr_stmts c fc (decl_after c Ds t) r La) as [Lm|] eqn:Er; [|discriminate].
+  destruct Hx as [->|Hx]; [|eapply IH; eauto].
+  destruct (in_plan_stmt (d_pa c) (stmt_sid x)).
+  - destruct (in_acc c (stmt_sid x)).
+    + destruct x; cbn in Hf; try discriminate.
+    + rewrite Hf in H. eapply tr_stmt_sfun; eauto.
+  - eapply tr_stmt_sfun; eauto.
+Qed.
+
+Lemma hoist_rel b : forall s1 s2,
+  (forall x, In x b -> is_fun x = true -> sfun_ok x) ->
+  fns s1 = fns s2 -> fns_ok c (fns s1) -> fns s1 <> [] ->
+  exists s1' s2', hoist (d_pa c) b s1 = Ok s1' /\ hoist (pb_of c) b s2 = Ok s2' /\
+                  env s1' = env s1 /\ env s2' = env s2 /\ fns s1' = fns s2' /\ fns_ok c (fns s1').
+Proof.
+  induction b as [|a r IH]; intros s1 s2 Hf Hfe Hok Hne.
+  - exists s1, s2. cbn [hoist]. auto 10.
+  - assert (Hr : forall x, In x r -> is_fun x = true -> sfun_ok x) by (intros x Hx; apply Hf; right; exact Hx).
+    destruct a; cbn [hoist]; try (apply IH; assumption).
+    rewrite in_pb_fn. specialize (Hf _ (or_introl eq_refl) eq_refl). cbn [sfun_ok] in Hf.
+    destruct (in_plan_fn (d_pa c) fid) eqn:Ep; [apply IH; assumption|].
+    destruct Hf as [Hf|Hf]; [discriminate|].
+    rewrite <- Hfe. destruct (fns s1) as [|sc rest] eqn:Efs; [contradiction|].
+    set (f := {| f_id := fid; f_name := n; f_params := ps; f_body := body; f_lstart := lstart; f_llen := llen |}) in *.
+    destruct (IH {| env := env s1; fns := (f :: sc) :: rest |} {| env := env s2; fns := (f :: sc) :: rest |})
+      as (s1' & s2' & H1 & H2 & H3 & H4 & H5 & H6); try assumption.
+    + reflexivity.
+    + cbn [fns]. intros sc0 f0 [E|Hin] Hf0.
+      * subst sc0. destruct Hf0 as [E|Hf0]; [subst f0; exact Hf|].
+        apply (Hok sc f0); [left; reflexivity|exact Hf0].
+      * apply (Hok sc0 f0); [right; exact Hin|exact Hf0].
+    + cbn [fns]. discriminate.
+    + exists s1', s2'. cbn [env] in H3, H4. auto 10.
+Qed.
+
+Section Block.
+Variable ex1 ex2 : stmt -> st -> M (flow * st).
+Hypothesis Hex : forall ax fc Ds t La Lb s1 s2,
+  ax_ok ax -> a_R ax = f_R fc -> ds_wf Ds ->
+  tr_stmt c fc Ds t La = Some Lb -> inv c ax Lb Ds s1 s2 ->
+  relM (post ax fc (decl1 Ds t) La) (ex1 t s1) (ex2 t s2).
+Hypothesis Hpr : forall ax L Ds t s1 s2,
+  ds_wf Ds -> pruned_store_ok Ds L t = true -> inv c ax L Ds s1 s2 ->
+  tolr (snd (ex2 t s2)) \/
+  exists s2', ex2 t s2 = ([], Ok (FNormal, s2')) /\ inv c ax L Ds s1 s2'.
+
+Lemma decl1_wf fc Ds t La Lb : tr_stmt c fc Ds t La = Some Lb -> ds_wf Ds -> ds_wf (decl1 Ds t).
+Proof.
+  intros Ht Hwf. destruct t; try exact Hwf. cbn [decl1]. destruct l as [x|]; [|exact Hwf].
+  destruct Ds as [|D r]; [exact Hwf|]. destruct (memz x D) eqn:E; [exact Hwf|].
+  cbn [tr_stmt] in Ht. destruct (echk c fc (D :: r) e); [|discriminate].
+  cbn [tl andb] in Ht. destruct (negb (memz x (concat r))) eqn:Ex; [|discriminate].
+  apply negb_true_iff in Ex. apply memz_nIn in Ex. apply memz_nIn in E.
+  unfold ds_wf in *. cbn [concat app] in *. constructor; [|exact Hwf].
+  intros Hi. apply in_app_or in Hi. destruct Hi; contradiction.
+Qed.
+
+Lemma stmts_sim ts : forall ax fc Ds La Lb s1 s2,
+  ax_ok ax -> a_R ax = f_R fc -> ds_wf Ds -> Ds <> [] ->
+  tr_stmts c fc Ds ts La = Some Lb -> inv c ax Lb Ds s1 s2 ->
+  relM (post ax fc (tl Ds) La) (stmts_with (d_pa c) ex1 ts s1) (stmts_with (pb_of c) ex2 ts s2).
+Proof.
+  induction ts as [|t r IH]; intros ax fc Ds La Lb s1 s2 Hax HR Hwf Hne Ht Hi.
+  - cbn [stmts_with]. cbn in Ht. inversion Ht; subst Lb.
+    destruct Ds as [|D Ds']; [contradiction|]. cbn [tl].
+    apply rel_ret. unfold post. cbn [fst snd Lfl]. split; [reflexivity|]. eapply inv_pop; eauto.
+  - rewrite tr_stmts_cons in Ht.
+    destruct (tr_stmts c fc (decl_after c Ds t) r La) as [Lm|] eqn:Er; [|discriminate].
+    cbn [stmts_with]. rewrite in_pb_stmt. unfold decl_after in Er.
+    destruct (in_plan_stmt (d_pa c) (stmt_sid t)) eqn:Ep; cbn [andb].
+    + destruct (in_acc c (stmt_sid t)) eqn:Ea; cbn [negb].
+      * (* a dead store: skipped on the left, executed on the right *)
+        destruct (pruned_store_ok Ds Lm t) eqn:Eok; [|discriminate]. inversion Ht; subst Lb.
+        destruct (Hpr ax Lm Ds t s1 s2 Hwf Eok Hi) as [T|[s2' [E Hi']]].
+        -- apply rel_tol. apply tolr_bind. exact T.
+        -- rewrite E, bindM_ret_nil. eapply IH; eauto.
+      * (* skipped by both *)
+        assert (E : Lb = Lm).
+        { destruct (is_fun t) eqn:Ef; [|inversion Ht; reflexivity].
+          destruct t; cbn in Ef; try discriminate. cbn [tr_stmt] in Ht.
+          destruct (in_plan_fn (d_pa c) fid); [inversion Ht; reflexivity|].
+          destruct fid; [|discriminate]. destruct (rt_get (d_rt c) z); [|discriminate].
+          destruct (nodupb _); [|discriminate].
+          match type of Ht with match ?X with _ => _ end = _ => destruct X end; [inversion Ht; reflexivity|discriminate]. }
+        subst Lb. eapply IH; eauto.
+    + (* executed by both *)
+      eapply rel_bind.
+      * eapply Hex; eauto.
+      * intros [fl1 s1'] [fl2 s2'] [Efl Hp]. cbn [fst snd] in Efl, Hp. subst fl2.
+        destruct fl1; cbn [Lfl] in Hp.
+        -- rewrite <- (decl1_tl Ds t). eapply (IH ax fc (decl1 Ds t) La Lm); eauto.
+           ++ eapply decl1_wf; eauto.
+           ++ intros E. apply (f_equal (@length lset)) in E. rewrite decl1_length in E.
+              destruct Ds; [contradiction|discriminate].
+        -- rewrite <- (decl1_tl Ds t). destruct (decl1 Ds t) as [|D' r'] eqn:Ed.
+           { exfalso. apply (f_equal (@length lset)) in Ed. rewrite decl1_length in Ed. destruct Ds; [contradiction|discriminate]. }
+           apply rel_ret. unfold post. cbn [fst snd Lfl tl]. split; [reflexivity|]. eapply inv_pop; eauto.
+        -- rewrite <- (decl1_tl Ds t). destruct (decl1 Ds t) as [|D' r'] eqn:Ed.
+           { exfalso. apply (f_equal (@length lset)) in Ed. rewrite decl1_length in Ed. destruct Ds; [contradiction|discriminate]. }
+           apply rel_ret. unfold post. cbn [fst snd Lfl tl]. split; [reflexivity|]. eapply inv_pop; eauto.
+        -- rewrite <- (decl1_tl Ds t). destruct (decl1 Ds t) as [|D' r'] eqn:Ed.
+           { exfalso. apply (f_equal (@length lset)) in Ed. rewrite decl1_length in Ed. destruct Ds; [contradiction|discriminate]. }
+           apply rel_ret. unfold post. cbn [fst snd Lfl tl]. split; [reflexivity|]. eapply inv_pop; eauto.
+Qed.
+
+Lemma block_body_sim ax fc Ds b La Lb s1 s2 :
+  ax_ok ax -> a_R ax = f_R fc -> ds_wf Ds ->
+  tr_stmts c fc ([] :: Ds) b La = Some Lb -> inv c ax Lb Ds s1 s2 ->
+  relM (post ax fc Ds La) (block_body (d_pa c) ex1 b s1) (block_body (pb_of c) ex2 b s2).
+Proof.
+  intros Hax HR Hwf Ht Hi. unfold block_body.
+  pose proof (inv_push c ax Lb Ds s1 s2 Hi) as Hp. pose proof Hp as (P1 & P2 & P3 & P4).
+  destruct (hoist_rel b (push_scope [] s1) (push_scope [] s2) (tr_stmts_funs _ _ _ _ _ Ht) P1 P2)
+    as (s1' & s2' & H1 & H2 & H3 & H4 & H5 & H6).
+  { cbn. discriminate. }
+  rewrite H1, H2. unfold lift. rewrite !bindM_ret_nil.
+  change Ds with (tl ([] :: Ds)) at 1.
+  eapply stmts_sim; eauto.
+  - discriminate.
+  - unfold inv. rewrite H3, H4. auto.
+Qed.
+
+End Block.
+
+(* ------------------------------------------------------------------------------------ *)
+(* H. the skipped store, executed by the other run                                        *)
+
+Lemma pruned_exec P n ax L Ds t s1 s2 :
+  ds_wf Ds -> pruned_store_ok Ds L t = true -> inv c ax L Ds s1 s2 ->
+  tolr (snd (exec P eps n t s2)) \/
+  exists s2', exec P eps n t s2 = ([], Ok (FNormal, s2')) /\ inv c ax L Ds s1 s2'.
+Proof.
+  intros Hwf Hp Hi. destruct n as [|n]; [left; exact I|]. rewrite exec_S.
+  destruct t; cbn [pruned_store_ok] in Hp; try discriminate.
+  - (* SMake: re-declaration in the scope that already holds the slot *)
+    destruct l as [x|]; [|discriminate]. apply andb_prop in Hp. destruct Hp as [Hp Hpt].
+    apply andb_prop in Hp. destruct Hp as [Hd Hl]. apply negb_true_iff in Hl. apply memz_nIn in Hl.
+    apply memz_In in Hd. destruct Ds as [|D r]; [destruct Hd|]. cbn [hd] in Hd.
+    cbn [exec_body].
+    destruct (pure_total_eval P eps n e s2 Hpt) as [rr [E [T|[v Ev]]]]; rewrite E.
+    + left. apply tolr_bind. exact T.
+    + subst rr. rewrite bindM_ret_nil. right. eexists. split; [reflexivity|].
+      pose proof Hi as (H1 & H2 & H3 & H4). unfold inv, with_env. cbn [env fns].
+      refine (conj H1 (conj H2 (conj _ H4))). eapply define_dead; eauto.
+  - (* SSet *)
+    destruct l as [x|]; [|discriminate]. apply andb_prop in Hp. destruct Hp as [Hp Hpt].
+    apply andb_prop in Hp. destruct Hp as [Hd Hl]. apply negb_true_iff in Hl. apply memz_nIn in Hl.
+    apply memz_In in Hd. cbn [exec_body].
+    destruct (pure_total_eval P eps n e s2 Hpt) as [rr [E [T|[v Ev]]]]; rewrite E.
+    + left. apply tolr_bind. exact T.
+    + subst rr. rewrite bindM_ret_nil.
+      destruct (assign_env (Some x) n0 v (env s2)) as [e'|] eqn:Ea.
+      * right. eexists. split; [reflexivity|].
+        pose proof Hi as (H1 & H2 & H3 & H4). unfold inv, with_env. cbn [env fns].
+        refine (conj H1 (conj H2 (conj _ H4))). eapply assign_dead; eauto.
+      * left. exact I.
+Qed.
+
+(* ------------------------------------------------------------------------------------ *)
+(* I. the simulation, by induction on fuel                                                *)
+
+Lemma main_sim n :
+  (forall ax L Ds e s1 s2, ax_ok ax -> eok ax L Ds e -> inv c ax L Ds s1 s2 ->
+     relM (vrel ax L Ds) (eval (d_pa c) eps n e s1) (eval (pb_of c) eps n e s2)) /\
+  (forall ax fc Ds t La Lb s1 s2, ax_ok ax -> a_R ax = f_R fc -> ds_wf Ds ->
+     tr_stmt c fc Ds t La = Some Lb -> inv c ax Lb Ds s1 s2 ->
+     relM (post ax fc (decl1 Ds t) La) (exec (d_pa c) eps n t s1) (exec (pb_of c) eps n t s2)) /\
+  (forall ax fc Ds cnd body La H B s1 s2,
+     ax_ok ax -> a_R ax = f_R fc -> ds_wf Ds -> eok ax H Ds cnd ->
+     tr_stmts c {| f_R := f_R fc; f_brk := La; f_next := H |} ([] :: Ds) body H = Some B ->
+     (forall x, In x B -> In x H) -> (forall x, In x La -> In x H) ->
+     inv c ax H Ds s1 s2 ->
+     relM (post ax fc Ds La) (exec_loop (d_pa c) eps n cnd body s1) (exec_loop (pb_of c) eps n cnd body s2)) /\
+  (forall ax fc Ds b La Lb s1 s2, ax_ok ax -> a_R ax = f_R fc -> ds_wf Ds ->
+     tr_stmts c fc ([] :: Ds) b La = Some Lb -> inv c ax Lb Ds s1 s2 ->
+     relM (post ax fc Ds La) (exec_block (d_pa c) eps n b s1) (exec_block (pb_of c) eps n b s2)).
+Proof.
+  induction n as [|n (IHe & IHt & IHl & IHb)].
+  - refine (conj _ (conj _ (conj _ _))); intros; apply rel_fuel.
+  - refine (conj _ (conj _ (conj _ _))).
+    + intros. rewrite !eval_S. eapply eval_body_sim; eauto.
+    + intros. rewrite !exec_S. eapply exec_body_sim; eauto.
+    + intros. rewrite !exec_loop_S. eapply loop_body_sim; eauto.
+    + intros. rewrite !exec_block_S. eapply block_body_sim; eauto.
+      intros. eapply pruned_exec; eauto.
+Qed.
+
+End Sim.
+
+(* ------------------------------------------------------------------------------------ *)
+(* J. whole programs                                                                      *)
+
+Theorem ds_sound_ctx c prog eps fuel o e :
+  ds_ok_ctx c prog = true ->
+  run_impl (pb_of c) eps fuel prog = (o, e) ->
+  tol_ending e = false ->
+  run_impl (d_pa c) eps fuel prog = (o, e).
+Proof.
+  unfold ds_ok_ctx, tr_block. intros H Hrun Htol.
+  match type of H with match ?X with _ => _ end = _ => destruct X as [Lb|] eqn:Et end; [|discriminate]. clear H.
+  set (ax0 := {| a_Lr := [[]]; a_ShR := [[]]; a_R := f_R (root_fc c prog) |}).
+  destruct (main_sim c eps fuel) as (_ & _ & _ & Hblk).
+  specialize (Hblk ax0 (root_fc c prog) [] prog [] Lb init_st init_st).
+  assert (Hax : ax_ok ax0) by (intros x _; reflexivity).
+  assert (Hinv : inv c ax0 Lb [] init_st init_st).
+  { unfold inv, init_st. cbn [env fns length repeat app a_Lr a_ShR ax0].
+    refine (conj eq_refl (conj _ (conj _ eq_refl))).
+    - intros sc fd [E|[]] Hf. subst sc. destruct Hf.
+    - constructor; [constructor|constructor]. }
+  specialize (Hblk Hax eq_refl (NoDup_nil Z) Et Hinv).
+  rewrite run_impl_eq in Hrun. rewrite run_impl_eq.
+  destruct (exec_block (pb_of c) eps fuel prog init_st) as [o2 r2].
+  destruct (exec_block (d_pa c) eps fuel prog init_st) as [o1 r1].
+  cbn [fst snd] in *. inversion Hrun; subst o e. clear Hrun.
+  destruct Hblk as [T|[Eo Hr]].
+  - exfalso. destruct r2 as [a|er|p| |]; cbn in T, Htol; try contradiction; try discriminate.
+    destruct p; try contradiction; discriminate.
+  - cbn [fst snd] in Eo, Hr. rewrite Eo. destruct r1, r2; try contradiction; cbn [res_ending]; try reflexivity; congruence.
+Qed.
+
+(* the statement for the checker's own configuration *)
+Theorem ds_sound prog ss fs acc eps fuel o e :
+  ds_ok prog (Some (ss, fs)) acc = true ->
+  run_impl (Some (filter (fun i => negb (memz i acc)) ss, fs)) eps fuel prog = (o, e) ->
+  tol_ending e = false ->
+  run_impl (Some (ss, fs)) eps fuel prog = (o, e).
+Proof.
+  intros H. exact (ds_sound_ctx (mk_ctx prog (Some (ss, fs)) acc) prog eps fuel o e H).
+Qed.
+
+(* ------------------------------------------------------------------------------------ *)
+(* K. together with the three classes of PlanCheck.plan_ok                                *)
+
+(* plan (ss, fs)  --[Unreachable / UnusedFn / NeverRead: PlanProofs]-->  residual of plan_ok
+                  --[flow-sensitive dead stores: this file]-->           x_residual          *)
+Theorem plan_ok3_sound_lemma prog ss fs eps fuel o e :
+  v_checked (x_main (plan_ok3 prog ss fs)) = true ->
+  x_checked (plan_ok3 prog ss fs) = true ->
+  run_impl (Some (x_residual (plan_ok3 prog ss fs))) eps fuel prog = (o, e) ->
+  tol_ending e = false ->
+  run_impl (Some (ss, fs)) eps fuel prog = (o, e).
+Proof.
+  unfold plan_ok3. cbv zeta. cbn [x_main x_checked x_residual].
+  set (v := plan_ok prog ss fs).
+  destruct (v_residual v) as [ss2 fs2] eqn:Ev. cbn [fst snd].
+  set (acc := if ds_ok prog (Some (ss2, fs2)) (ds_candidates prog (Some (ss2, fs2)))
+              then ds_candidates prog (Some (ss2, fs2)) else []).
+  intros Hv Hd Hrun Htol.
+  apply (plan_ok_sound_lemma prog ss fs eps fuel o e Hv); [|exact Htol].
+  fold v. rewrite Ev. eapply ds_sound; eauto.
+Qed.
+
+(* every entry of the plan is in one of the four classes: the pruned run is the plain run *)
+Theorem prune_dead_stores_sound_lemma prog ss fs eps fuel o e :
+  v_checked (x_main (plan_ok3 prog ss fs)) = true ->
+  x_checked (plan_ok3 prog ss fs) = true ->
+  x_residual (plan_ok3 prog ss fs) = ([], []) ->
+  run_impl None eps fuel prog = (o, e) ->
+  tol_ending e = false ->
+  run_impl (Some (ss, fs)) eps fuel prog = (o, e).
+Proof.
+  intros Hv Hd Hr Hrun Htol. apply plan_ok3_sound_lemma; try assumption.
+  rewrite Hr, empty_plan_is_none. exact Hrun.
+Qed.
